@@ -51,7 +51,13 @@ type G struct {
 	tags    []string
 }
 
-var fixtPaths = []string{"fixt/pa", "fixt/pb", "fixt/deep/pa", "fixt/x-y.v2", "fixt/fmt", "fixt/os"}
+var fixtPaths = func() []string {
+	var out []string
+	for _, p := range cfg.FixturePkgs {
+		out = append(out, p.Path)
+	}
+	return out
+}()
 
 func (g *G) pick(n int) int { return g.R.Intn(n) }
 func (g *G) chance(p float64) bool { return g.R.Float64() < p }
@@ -328,7 +334,7 @@ func Behaviour(r *rand.Rand, o Opts) *cfg.Config {
 		c.Meta.DefaultMustGetter = cfg.P(g.chance(0.5))
 	}
 	// aliases (safe names: no alias is a string prefix of another alias, of a referenced path or of a template import)
-	cand := []cfg.KS{{K: "pa", V: "fixt/pa"}, {K: "pb", V: "fixt/pb"}, {K: "dp", V: "fixt/deep/pa"}, {K: "xy", V: "fixt/x-y.v2"}, {K: "zfmt", V: "fixt/fmt"}, {K: "zos", V: "fixt/os"}, {K: "fx", V: "fixt"}, {K: "d-p.q_r", V: "fixt/deep"}}
+	cand := []cfg.KS{{K: "pa", V: "fixt/pa"}, {K: "pb", V: "fixt/pb"}, {K: "dp", V: "fixt/deep/pa"}, {K: "xy", V: "fixt/x-y.v2"}, {K: "zfmt", V: "fixt/fmt"}, {K: "zos", V: "fixt/os"}, {K: "fx", V: "fixt"}, {K: "d-p.q_r", V: "fixt/deep"}, {K: "alib", V: "aaa.test/lib"}, {K: "zt", V: "zzz.test"}}
 	if o.HostileAlias {
 		// names that are string prefixes of each other, of referenced paths, or of / equal to the packages the template imports
 		cand = []cfg.KS{{K: "f", V: "fixt/pa"}, {K: "fm", V: "fixt/pb"}, {K: "fmt", V: "fixt/deep/pa"}, {K: "o", V: "fixt/x-y.v2"}, {K: "os", V: "fixt/fmt"},
@@ -350,12 +356,15 @@ func Behaviour(r *rand.Rand, o Opts) *cfg.Config {
 	g.fnNames["envInt"] = "envInt"
 	g.fnNames["todo"] = "todo"
 	// tags pool
-	g.tags = []string{"t", "u-1", "v.w", "x_y"}[:1+g.pick(4)]
+	// tag names overlap with service and parameter names (a graph keyed by bare names would confuse them) and differ by case
+	tagPool := []string{"t", "u-1", "v.w", "x_y", "s0", "a.b1", "p0", "T", "svc1"}
+	r.Shuffle(len(tagPool), func(i, j int) { tagPool[i], tagPool[j] = tagPool[j], tagPool[i] })
+	g.tags = tagPool[:1+g.pick(4)]
 	// params
 	np := 2 + g.pick(6)
 	var pnames []string
 	for i := 0; i < np; i++ {
-		name := choose(g, "p", "q", "host", "a.b", "c-d", "e_f") + fmt.Sprint(i)
+		name := choose(g, "p", "q", "host", "a.b", "c-d", "e_f", "s", "svc", "P", "Host") + fmt.Sprint(i)
 		var v cfg.Val
 		switch k := g.pick(10); {
 		case k < 4:
@@ -372,7 +381,7 @@ func Behaviour(r *rand.Rand, o Opts) *cfg.Config {
 	ns := 1 + g.pick(o.MaxServices)
 	var snames []string
 	for i := 0; i < ns; i++ {
-		name := choose(g, "s", "svc", "a.b", "c-d", "db_x") + fmt.Sprint(i)
+		name := choose(g, "s", "svc", "a.b", "c-d", "db_x", "p", "S", "Svc", "t") + fmt.Sprint(i)
 		s := g.service(name, snames, pnames)
 		c.Services = append(c.Services, s)
 		snames = append(snames, name)
@@ -500,6 +509,13 @@ func (g *G) service(name string, before, params []string) cfg.Service {
 			s.Calls = append(s.Calls, cl)
 		}
 	}
+	// explicit empty collections are legal and must mean "nothing"
+	if isObj && s.Calls == nil && g.chance(0.08) {
+		s.Calls = []cfg.Call{}
+	}
+	if isObj && s.Fields == nil && g.chance(0.08) {
+		s.Fields = []cfg.KV{}
+	}
 	// tags
 	tagP := 0.3
 	if o.TagBias {
@@ -517,6 +533,9 @@ func (g *G) service(name string, before, params []string) cfg.Service {
 	sp := 0.35
 	if o.ScopeProb > 0 {
 		sp = o.ScopeProb
+	}
+	if s.Tags == nil && g.chance(0.05) {
+		s.Tags = []cfg.Tag{}
 	}
 	if o.Scopes && g.chance(sp) {
 		if o.ContextualBias {
@@ -590,7 +609,10 @@ func (g *G) repair() {
 // reference container predicts.
 func (g *G) addGetters() {
 	c := g.C
-	fixt := map[string]string{"fixt/pa": "pa", "fixt/pb": "pb", "fixt/deep/pa": "pa", "fixt/x-y.v2": "xy", "fixt/fmt": "fmt", "fixt/os": "os"}
+	fixt := map[string]string{}
+	for _, p := range cfg.FixturePkgs {
+		fixt[p.Path] = p.Name
+	}
 	used := map[string]bool{}
 	for i := range c.Services {
 		s := &c.Services[i]
